@@ -5,6 +5,7 @@ import (
 	"fmt"
 	"math/bits"
 	"math/rand/v2"
+	"syscall"
 
 	"github.com/philpearl/plenc/plenccore"
 	"google.golang.org/protobuf/encoding/protowire"
@@ -325,6 +326,47 @@ func padUvarint(r *rand.Rand, dst []byte, v uint64) []byte {
 	return append(dst, 0x00)
 }
 
+// c18HugeFields: well-formed length-delimited fields and counted entries whose bodies are 2^31-1,
+// 2^31, 2^31+12345, 2^32-1 and 2^32+7 bytes long. The bytes come from one anonymous mapping that
+// is never touched beyond the headers (Skip does not look at a body), so this costs address space,
+// not memory.
+func c18HugeFields(c *core.Ctx) {
+	const room = 1<<32 + 1<<16
+	mem, err := syscall.Mmap(-1, 0, room, syscall.PROT_READ|syscall.PROT_WRITE, syscall.MAP_ANON|syscall.MAP_PRIVATE|syscall.MAP_NORESERVE)
+	if err != nil {
+		c.Rec.Count("huge_fields_skipped_no_address_space", 1)
+		return
+	}
+	defer syscall.Munmap(mem)
+	for _, l := range []uint64{1<<31 - 1, 1 << 31, 1<<31 + 12345, 1<<32 - 1, 1<<32 + 7} {
+		// WTLength: length, body
+		h := refAppendUvarint(nil, l)
+		copy(mem, h)
+		total := len(h) + int(l)
+		var got int
+		var serr error
+		if pn := core.Guard(func() { got, serr = plenccore.Skip(mem[:total+3], plenccore.WTLength) }); pn != "" || serr != nil || got != total {
+			c.Rec.Violation("skip-wellformed", fmt.Sprintf("Skip over a well-formed length-delimited field with a body of %d bytes (all of it present) = (%d, %v) %s, want %d", l, got, serr, trunc1(pn), total), nil)
+			return
+		}
+		// WTSlice: count 1, entry length, entry
+		h = append([]byte{0x01}, refAppendUvarint(nil, l)...)
+		copy(mem, h)
+		total = len(h) + int(l)
+		if pn := core.Guard(func() { got, serr = plenccore.Skip(mem[:total], plenccore.WTSlice) }); pn != "" || serr != nil || got != total {
+			c.Rec.Violation("skip-wellformed", fmt.Sprintf("Skip over a well-formed counted field with one entry of %d bytes (all of it present) = (%d, %v) %s, want %d", l, got, serr, trunc1(pn), total), nil)
+			return
+		}
+		// and one byte short of it: an error, not an over-run
+		if pn := core.Guard(func() { got, serr = plenccore.Skip(mem[:total-1], plenccore.WTSlice) }); pn != "" || (serr == nil && got > total-1) {
+			c.Rec.Violation("skip-overrun", fmt.Sprintf("Skip over a counted field whose %d-byte entry is one byte short = (%d, %v) %s", l, got, serr, trunc1(pn)), nil)
+			return
+		}
+		c.Rec.Eval(3)
+		c.Rec.Count("huge_fields", 3)
+	}
+}
+
 func head(b []byte, n int) []byte {
 	if len(b) > n {
 		return b[:n]
@@ -439,6 +481,7 @@ func init() {
 			switch j.kind {
 			case kBoundary:
 				c18Boundaries(c, st)
+				c18HugeFields(c)
 				c.Rec.Sample(map[string]any{"kind": "boundary", "example": "2^35+1 = 34359738369 -> " + fmt.Sprintf("%x", plenccore.AppendVarUint(nil, 1<<35+1))})
 			case kTags:
 				c18Tags(c, j.arg*4096, (j.arg+1)*4096)
